@@ -235,7 +235,7 @@ func c17Close(p *chk.Prog, r *chk.Report) {
 	if rn != nil {
 		g := rn.Graph()
 		ok := false
-		for _, e := range g.EdgesImplying(g.GPat(true, "E == errClosed")) {
+		for _, e := range g.EdgesImplying(chk.GSame(g.GPat(true, "E == errClosed"), g.GPat(true, "errors.Is(E, errClosed)"))) {
 			ok = !g.BranchAlways(e, func(n ast.Node) bool { _, isRet := n.(*ast.ReturnStmt); return isRet }).Found
 		}
 		ok2 := false
@@ -341,6 +341,45 @@ func c17Pending(p *chk.Prog, r *chk.Report) {
 				if f.IsField(as.Lhs[i], adv) {
 					continue
 				}
+				// a local that is only read (ranged over, indexed, measured, compared): another name for the pending
+				// set while s.new itself stays where it is
+				if id, isId := as.Lhs[i].(*ast.Ident); isId && f.ObjOf(id) != nil && len(assignsTo(f, f.ObjOf(id))) == 1 {
+					o := f.ObjOf(id)
+					readOnly := true
+					ast.Inspect(f.Body, func(m ast.Node) bool {
+						u, isU := m.(*ast.Ident)
+						if !isU || f.ObjOf(u) != o || u == id {
+							return true
+						}
+						switch par := p.Parent(u).(type) {
+						case *ast.RangeStmt:
+							if par.X != ast.Expr(u) {
+								readOnly = false
+							}
+						case *ast.IndexExpr:
+							if par.X != ast.Expr(u) {
+								readOnly = false
+							} else if pas, isAs := p.Parent(par).(*ast.AssignStmt); isAs {
+								for _, l := range pas.Lhs {
+									if l == ast.Expr(par) {
+										readOnly = false // an element store through the alias
+									}
+								}
+							}
+						case *ast.BinaryExpr:
+						case *ast.CallExpr:
+							if fid, isF := par.Fun.(*ast.Ident); !isF || fid.Name != "len" {
+								readOnly = false
+							}
+						default:
+							readOnly = false
+						}
+						return true
+					})
+					if readOnly {
+						continue
+					}
+				}
 				x.Fail("new-parked@"+f.Name(), as.Pos(), "the pending set is moved into something other than session.advertised")
 			}
 			return true
@@ -384,13 +423,14 @@ func c17Pending(p *chk.Prog, r *chk.Report) {
 	ab := need(x, p, natPkg, "session", "abort")
 	if ab != nil {
 		g := ab.Graph()
-		ok := false
-		for _, e := range g.EdgesImplying(g.GPat(true, "RECV.new != nil")) {
-			ok = !g.BranchAlways(e, func(n ast.Node) bool {
-				as, okk := n.(*ast.AssignStmt)
-				return okk && len(as.Lhs) == 2 && ab.IsField(as.Lhs[0], adv) && ab.IsField(as.Rhs[0], fld)
-			}).Found
+		// every way through abort folds the pending set, except behind `s.new == nil`
+		isFold := func(n ast.Node) bool {
+			as, okk := n.(*ast.AssignStmt)
+			return okk && len(as.Lhs) == 2 && ab.IsField(as.Lhs[0], adv) && ab.IsField(as.Rhs[0], fld)
 		}
+		noPending := g.GPat(false, "RECV.new != nil")
+		w := (&chk.Walk{G: g, HitExit: true, Stop: isFold, Cut: func(b *cfgBlock, k int) bool { return g.EdgeImplies(b, k, noPending) }}).Run()
+		ok := !w.Found && len(g.Find(isFold)) >= 1
 		x.Check("abort:folds-pending", ab.Pos(), ok, "", "abort() does not fold a pending set into the advertised set (it would not be re-sent after the reconnection)")
 		ok2 := false
 		for _, e := range g.EdgesImplying(g.GPat(true, "RECV.conn != nil")) {
@@ -477,25 +517,49 @@ func c17Diff(p *chk.Prog, r *chk.Report) {
 	}
 	k, a := rangeKey(f, diffNew), rangeVal(f, diffNew)
 	send := f.ContainsPat("sendUpdate(RECV.conn, RECV.MyASN, IBGP, FB, RECV.nextHop, A)", chk.H("A", a))
-	same := func(ft chk.Fact) bool {
-		if !ft.Val {
-			return false
+	sameFor := func(k, a func(ast.Expr) bool) func(ft chk.Fact) bool {
+		return func(ft chk.Fact) bool {
+			if !ft.Val {
+				return false
+			}
+			b := f.MatchNew("OK && A.Equal(B)", ft.E)
+			if b == nil || !a(b["A"]) {
+				return false
+			}
+			bid, ok1 := ast.Unparen(b["B"]).(*ast.Ident)
+			oid, ok2 := ast.Unparen(b["OK"]).(*ast.Ident)
+			if !ok1 || !ok2 {
+				return false
+			}
+			site := g.FactSite(bid)
+			r1, i1 := g.DefOf(bid, site)
+			r2, i2 := g.DefOf(oid, site)
+			return r1 != nil && r1 == r2 && i1 == 0 && i2 == 1 && f.MatchWith("RECV.advertised[K]", r1, chk.H("K", k)) != nil
 		}
-		b := f.MatchNew("OK && A.Equal(B)", ft.E)
-		if b == nil || !a(b["A"]) {
-			return false
-		}
-		bid, ok1 := ast.Unparen(b["B"]).(*ast.Ident)
-		oid, ok2 := ast.Unparen(b["OK"]).(*ast.Ident)
-		if !ok1 || !ok2 {
-			return false
-		}
-		site := g.FactSite(bid)
-		r1, i1 := g.DefOf(bid, site)
-		r2, i2 := g.DefOf(oid, site)
-		return r1 != nil && r1 == r2 && i1 == 0 && i2 == 1 && f.MatchWith("RECV.advertised[K]", r1, chk.H("K", k)) != nil
 	}
-	y.Check("sendUpdates:diff-sends-new-or-changed", diffNew.Pos(), !loopSkipsWithout(g, diffNew, send, chk.GFunc(same)) && !loopHasBreak(g, diffNew), "", "an advertisement that is new or whose attributes changed can be skipped in the diff phase")
+	same := sameFor(k, a)
+	okDiff := !loopSkipsWithout(g, diffNew, send, chk.GFunc(same)) && !loopHasBreak(g, diffNew)
+	if !okDiff {
+		// two phases: the keys of the new or changed advertisements are collected first, then every one of them is sent
+		isNew := func(e ast.Expr) bool {
+			return f.MatchWith("RECV.new", f.Resolve(e), chk.H("RECV", isRecv(f))) != nil || f.MatchWith("RECV.new", e, chk.H("RECV", isRecv(f))) != nil
+		}
+		changed := func(e ast.Expr) bool {
+			return filteredKeys(f, g, e, isNew, func(rs *ast.RangeStmt, pos bool) chk.Guard {
+				sm := chk.GFunc(sameFor(rangeKey(f, rs), rangeVal(f, rs)))
+				if pos {
+					return chk.GNot(sm)
+				}
+				return sm
+			})
+		}
+		for _, rs := range f.RangeLoops(changed) {
+			key := rangeVal(f, rs)
+			send2 := f.ContainsPat("sendUpdate(RECV.conn, RECV.MyASN, IBGP, FB, RECV.nextHop, N[K])", chk.H("N", isNew), chk.H("K", key))
+			okDiff = !loopSkipsWithout(g, rs, send2, chk.NoGuard) && !loopHasBreak(g, rs)
+		}
+	}
+	y.Check("sendUpdates:diff-sends-new-or-changed", diffNew.Pos(), okDiff, "", "an advertisement that is new or whose attributes changed can be skipped in the diff phase")
 	ok, ov := rangeKey(f, diffOld), rangeVal(f, diffOld)
 	wapp := func(n ast.Node) bool { return f.IsAssignPat("W", "append(W, A.Prefix)", chk.H("A", ov))(n) }
 	missing := g.GPat(true, "RECV.new[K] == nil", chk.H("K", ok))
